@@ -112,6 +112,8 @@ Rows(f) == [j \in 1..Hpx |-> [i \in 1..Wpx |-> f[j - 1][i - 1]]]
 RuleSensitive(pr) == \E j \in 1..Len(pr) : HasFill(pr[j]) /\ (pr[j].rule \in {2, 3} \/ (pr[j].rule = 1 /\ ~RuleSame(pr[j].shape, 1, 0)))
 \* scenario features (exact): a filled shape with an open sub-path; a painted region that reaches beyond the left / top image border
 OpenFill(pr) == \E j \in 1..Len(pr) : HasFill(pr[j]) /\ \E n \in 1..Len(Shapes[pr[j].shape]) : ~Shapes[pr[j].shape][n].c
+\* a Positive / Negative fill of a shape with an open sub-path (the rasterizer settles the path with Path.Settle, which does not close it)
+PosNegOpen(pr) == \E j \in 1..Len(pr) : HasFill(pr[j]) /\ pr[j].rule \in {2, 3} /\ \E n \in 1..Len(Shapes[pr[j].shape]) : ~Shapes[pr[j].shape][n].c
 Reach(d) == IF HasStroke(d) THEN StrokeReach(d) ELSE 0
 \* a stroked closed sub-path that crosses itself (DESIGN 8 #23: Path.Stroke drops part of the outline; C04's finding)
 SelfX(sh) == \E n \in 1..Len(sh) : sh[n].c /\ LET q == sh[n].p m == Len(q) IN
@@ -125,7 +127,7 @@ FScenario == LET ps == AllPaints(gprog, 1, FALSE) \o <<>> IN
              [prog |-> gprog, res |-> FRes, wpx |-> Wpx, hpx |-> Hpx,
               paints |-> IF FMode = "prog" THEN [i \in 1..Len(ExpQueue(gprog)) |-> Brief(ExpQueue(gprog)[i])] ELSE <<>>,
               frame |-> Rows(FrameOf(ps)),
-              feat |-> [openfill |-> OpenFill(gprog), left |-> CrossLeft(gprog), top |-> CrossTop(gprog), selfx |-> StrokeSelfX(gprog)],
+              feat |-> [openfill |-> OpenFill(gprog), left |-> CrossLeft(gprog), top |-> CrossTop(gprog), selfx |-> StrokeSelfX(gprog), posnegopen |-> PosNegOpen(gprog)],
               nz |-> IF RuleSensitive(gprog) THEN Rows(FrameOf(AllPaints(gprog, 1, TRUE) \o <<>>)) ELSE <<>>]
 FEmit == ~gdone /\ gdone' = TRUE /\ UNCHANGED <<gprog, vars, mprog, mlang, mtrace>> /\ PrintT("@@" \o ToJson(FScenario))
 FSpec == GInit /\ [][FEmit]_mvars
